@@ -5,7 +5,7 @@
 //!   drive sort <seed> <cases> <out.ndjson>
 use serde_json::{json, Value};
 use std::io::Write;
-use tdverif::cells::{CellT, Elem, Tok, Zst, K32, W1K};
+use tdverif::cells::{CellT, Elem, Tok, Zst, K32, W1K, W4K};
 use tdverif::hist::{event, index_args, Machine};
 use tdverif::util::{guarded, silence_panics, LenMode};
 use toodee::{SortOps, TooDee, TooDeeOps, TooDeeOpsMut};
@@ -54,14 +54,16 @@ fn hist<T: CellT + std::hash::Hash>(seed: u64, histories: usize, steps: usize, m
         // a few histories per run start from a HUGE array (about 10^5 cells) with spare capacity and begin with the calls
         // whose cost depends on the number of cells behind the touched line: element-COUNT thresholds of "large array"
         // paths (2^16 ...) are out of reach of the large histories below
-        let huge = histories >= 100 && h % 97 == 13;
+        let bulky = std::mem::size_of::<T>() >= 1024;      // (page-sized elements: the same byte volumes with far fewer cells)
+        // (not in fault mode: after a fault the trace specification compares bags of 10^5 live elements - minutes per event)
+        let huge = histories >= 100 && h % 97 == 13 && !bulky && !faults;
         let large = huge || rng.chance(25);
         let (nc, nr) = if huge {
             (262 + rng.below(70), 262 + rng.below(70))
         } else if large {
             let a = 13 + rng.below(118);
             // often only a few lines in the other direction, so that histories reach "last line removed" on long lines
-            let b = if rng.chance(45) { 1 + rng.below(3) } else { 1 + rng.below((2600 / a).clamp(1, 40)) };
+            let b = if rng.chance(45) { 1 + rng.below(3) } else { 1 + rng.below(((if bulky { 700 } else { 2600 }) / a).clamp(1, 40)) };
             if rng.chance(50) { (a, b) } else { (b, a) }
         } else if rng.chance(15) {
             (0, 0)
@@ -279,7 +281,7 @@ fn sort(seed: u64, cases: usize, out: &mut impl Write) {
         let (pc, pr) = (nc + 2 * mc, nr + 2 * mr);
         let line = rng.below(if by_row { nr } else { nc });
         let stable = huge || rng.chance(60);
-        let form = ["cmp", "key", "ord"][rng.below(3)];
+        let form = ["cmp", "key", "ord", "skey"][rng.below(4)];
         if !by_row && !stable && form == "ord" {
             continue; // no such variant
         }
@@ -317,6 +319,10 @@ fn sort(seed: u64, cases: usize, out: &mut impl Write) {
                     match (by_row, stable, form) {
                         (true, true, "cmp") => r.sort_by_row(line, |x, y| x.key().cmp(&y.key())),
                         (true, false, "cmp") => r.sort_unstable_by_row(line, |x, y| x.key().cmp(&y.key())),
+                        (true, true, "skey") => r.sort_by_row_key(line, |x| format!("{:010}", x.key())),
+                        (true, false, "skey") => r.sort_unstable_by_row_key(line, |x| format!("{:010}", x.key())),
+                        (false, true, "skey") => r.sort_by_col_key(line, |x| format!("{:010}", x.key())),
+                        (false, false, "skey") => r.sort_unstable_by_col_key(line, |x| format!("{:010}", x.key())),
                         (true, true, "key") => r.sort_by_row_key(line, |x| x.key()),
                         (true, false, "key") => r.sort_unstable_by_row_key(line, |x| x.key()),
                         (true, true, _) => r.sort_row_ord::<()>(line),
@@ -369,6 +375,7 @@ fn main() {
                 "zst" => hist::<Zst>(seed, histories, steps, maxdim, &mut out, faults),
                 "tok" => hist::<Tok>(seed, histories, steps, maxdim, &mut out, faults),
                 "w1k" => hist::<W1K>(seed, histories, steps, maxdim, &mut out, faults),
+                "w4k" => hist::<W4K>(seed, histories, steps, maxdim, &mut out, faults),
                 "u32" => hist::<K32>(seed, histories, steps, maxdim, &mut out, faults),
                 _ => hist::<Elem>(seed, histories, steps, maxdim, &mut out, faults),
             }
